@@ -1,17 +1,17 @@
 package e2
 
 import (
-	"encoding/json"
-	"sort"
-	"syscall"
 	"bytes"
+	"encoding/json"
 	"fmt"
 	"os"
 	"os/exec"
 	"path/filepath"
+	"sort"
 	"strconv"
 	"strings"
 	"sync"
+	"syscall"
 	"testing"
 	"time"
 
